@@ -17,3 +17,43 @@ func Intn(n int) int {
 	}
 	return rand.Intn(n)
 }
+
+// The other unseeded top-level draws, all taken from the scheduler's PRNG inside a simulation.
+
+func Int63n(n int64) int64 {
+	if s, t := simrt.Current(); t != nil && n > 0 {
+		Draws++
+		if n <= 1<<30 {
+			return int64(s.Choose(int(n)))
+		}
+		return (int64(s.Choose(1<<30))<<30 | int64(s.Choose(1<<30))) % n
+	}
+	return rand.Int63n(n)
+}
+
+func Int31n(n int32) int32 { return int32(Int63n(int64(n))) }
+func Int() int            { return int(Int63n(1 << 62)) }
+func Int63() int64        { return Int63n(1 << 62) }
+func Int31() int32        { return int32(Int63n(1 << 31)) }
+func Uint32() uint32      { return uint32(Int63n(1 << 32)) }
+func Float64() float64    { return float64(Int63n(1<<53)) / (1 << 53) }
+func Float32() float32    { return float32(Int63n(1<<24)) / (1 << 24) }
+
+func Perm(n int) []int {
+	p := make([]int, n)
+	for i := range p {
+		p[i] = i
+	}
+	Shuffle(n, func(i, j int) { p[i], p[j] = p[j], p[i] })
+	return p
+}
+
+func Shuffle(n int, swap func(i, j int)) {
+	if _, t := simrt.Current(); t == nil {
+		rand.Shuffle(n, swap)
+		return
+	}
+	for i := n - 1; i > 0; i-- {
+		swap(i, Intn(i+1))
+	}
+}
